@@ -185,7 +185,7 @@ def examine(case):
 
 def plan(tier, seed):
     if tier == "quick":
-        return [{"n": 250} for _ in range(16)]
+        return [{"n": 800} for _ in range(16)]
     return [{"n": 8000} for _ in range(16)]
 
 
